@@ -381,29 +381,52 @@ fn menu(tier: Tier) -> Vec<Attack> {
     m
 }
 
-struct Outcome {
-    panics: Vec<String>,
-    finalized: Vec<Option<u64>>,
+pub struct Outcome {
+    pub panics: Vec<String>,
+    pub finalized: Vec<Option<u64>>,
     victim_votes_late: usize,
     responder_answers: usize,
     packets: usize,
+    /// slot -> (fast-final, final, skip, notar) certificates seen on the wire
+    pub certs: BTreeMap<u64, (bool, bool, bool, bool)>,
+}
+
+/// How the attacker, as leader of window 3 (slots 12..15), treats the next leader (validator 4).
+#[derive(Clone, Copy, Debug, PartialEq, Eq)]
+pub enum Handover {
+    None,
+    /// slot 15: one block for the next leader, another one for everybody else
+    Equivocate,
+    /// slot 15: the block reaches only the next leader, everybody else times out
+    OnlyNextLeader,
+    /// slots 14 and 15 reach only the next leader
+    LastTwoOnlyNextLeader,
+}
+
+/// C02's view of the hand-over runs: the whole cluster, 16 s.
+pub fn run_handover(variant: Handover, stakes: &[u64]) -> Result<Outcome, String> {
+    run_one_with(&[], 1_000_000, 16_000, variant, stakes)
 }
 
 /// One run: the attack is injected at `phase_ms`; a second attack (pairs) right after it.
-fn run_one(attacks: &[&Attack], phase_ms: u64, total_ms: u64, handover: bool) -> Result<Outcome, String> {
+fn run_one(attacks: &[&Attack], phase_ms: u64, total_ms: u64, handover: Handover) -> Result<Outcome, String> {
+    run_one_with(attacks, phase_ms, total_ms, handover, &STAKES)
+}
+
+fn run_one_with(attacks: &[&Attack], phase_ms: u64, total_ms: u64, handover: Handover, stakes: &[u64]) -> Result<Outcome, String> {
     let _ = take_thread_panics();
     catch(|| {
         let rt = runtime(11);
         rt.block_on(async {
             let absent: BTreeSet<usize> = [ATTACKER].into_iter().collect();
-            let cluster = Cluster::start(&STAKES, Duration::from_millis(5), &absent);
+            let cluster = Cluster::start(stakes, Duration::from_millis(5), &absent);
             // the attacker can still receive (its ports exist as sinks)
             cluster.hub.inner.lock().unwrap().crashed.clear();
             let mut t = 0u64;
             let mut injected = false;
             let mut packets = 0usize;
             let mut probe_sent = false;
-            let mut handover_done = !handover;
+            let mut handover_done = handover == Handover::None;
             while t < total_ms {
                 tokio::time::sleep(Duration::from_millis(100)).await;
                 t += 100;
@@ -420,7 +443,7 @@ fn run_one(attacks: &[&Attack], phase_ms: u64, total_ms: u64, handover: bool) ->
                     }
                 }
                 if !handover_done {
-                    handover_done = handover_attack(&cluster, t).await;
+                    handover_done = handover_attack(&cluster, t, handover).await;
                 }
                 if !probe_sent && t + 2000 >= total_ms {
                     probe_sent = true;
@@ -439,14 +462,45 @@ fn run_one(attacks: &[&Attack], phase_ms: u64, total_ms: u64, handover: bool) ->
             let finalized = cluster.finalized().await;
             let g = cluster.hub.inner.lock().unwrap();
             let late = g.votes.iter().filter(|(at, from, _)| *from == VICTIM && *at + 3000 >= total_ms).count();
-            Outcome { panics: take_thread_panics(), finalized, victim_votes_late: late, responder_answers: g.to_attacker, packets }
+            if std::env::var("C10_HANDOVER_DEBUG").is_ok() && handover != Handover::None {
+                // debugging aid: the consensus traffic around the hand-over
+                let mut lines: Vec<(u64, String)> = Vec::new();
+                for (at, from, v) in &g.votes {
+                    if (14..=17).contains(&v.slot().inner()) {
+                        lines.push((*at, format!("t={at} v{from} vote kind {} slot {}", crate::nodesys::vote_tag(v), v.slot().inner())));
+                    }
+                }
+                for (at, from, c) in &g.certs {
+                    if (14..=17).contains(&c.slot().inner()) {
+                        lines.push((*at, format!("t={at} v{from} CERT {:?} slot {}", crate::pooldrv::cert_kind(c), c.slot().inner())));
+                    }
+                }
+                lines.sort();
+                lines.dedup();
+                println!("--- {handover:?}");
+                for (_, l) in lines {
+                    println!("{l}");
+                }
+            }
+            let mut certs: BTreeMap<u64, (bool, bool, bool, bool)> = BTreeMap::new();
+            for (_, _, c) in &g.certs {
+                let e = certs.entry(c.slot().inner()).or_default();
+                match c {
+                    Cert::FastFinal(_) => e.0 = true,
+                    Cert::Final(_) => e.1 = true,
+                    Cert::Skip(_) => e.2 = true,
+                    Cert::Notar(_) => e.3 = true,
+                    _ => {}
+                }
+            }
+            Outcome { panics: take_thread_panics(), finalized, victim_votes_late: late, responder_answers: g.to_attacker, packets, certs }
         })
     })
 }
 
 /// The attacker leads window 3 (slots 12..15): it builds a proper chain 12..14 for everybody and
 /// equivocates in slot 15, giving the next leader (validator 4, window 4) a different block than the rest.
-async fn handover_attack(cluster: &Cluster, t: u64) -> bool {
+async fn handover_attack(cluster: &Cluster, t: u64, variant: Handover) -> bool {
     // wait until slot 15's block is notarized, then act once
     let parent: Option<BlockId> = cluster.hub.inner.lock().unwrap().certs.iter().find_map(|c| match &c.2 {
         Cert::Notar(n) if c.2.slot().inner() == 11 => Some((Slot::new(11), n.block_hash().clone())),
@@ -460,7 +514,11 @@ async fn handover_attack(cluster: &Cluster, t: u64) -> bool {
         let main = mk(1);
         let alt = mk(2);
         for node in [0usize, 1, 2, 4] {
-            let blk = if slot == 15 && node == 4 { &alt } else { &main };
+            let withheld = node != 4 && ((variant == Handover::OnlyNextLeader && slot == 15) || (variant == Handover::LastTwoOnlyNextLeader && slot >= 14));
+            if withheld {
+                continue;
+            }
+            let blk = if variant == Handover::Equivocate && slot == 15 && node == 4 { &alt } else { &main };
             for s in blk.shreds[0].iter() {
                 cluster.hub.inject(port(node, CH_DISS), wincode::serialize(s.as_shred()).unwrap(), Duration::from_millis(delay));
             }
@@ -498,8 +556,69 @@ fn judge(report: &Report, name: &str, class: &str, phase: u64, o: &Outcome, base
     }
 }
 
+/// The real UDP interface (`UdpNetwork`, the Linux `recvmmsg` path) on the loopback device: every
+/// datagram size of the list, three fill patterns, sandwiched between two honest votes; both honest
+/// votes must be delivered and the receiving task must survive.
+fn udp_interface_sweep(report: &Report) -> usize {
+    use alpenglow::network::{Network, UdpNetwork};
+    let e = crate::common::make_epoch(&[10, 10, 10]);
+    let honest = enc_msg(&ConsensusMessage::Vote(Vote::new_skip(Slot::new(3), &e.sks[1], vi(1))));
+    let rt = tokio::runtime::Builder::new_multi_thread().worker_threads(2).enable_all().build().unwrap();
+    let sizes: Vec<usize> = vec![0, 1, 2, 100, 1399, 1400, 1471, 1472, 1473, 1499, 1500, 1501, 1502, 1504, 1536, 2000, 2999, 3000, 4096, 5500, 9000, 16_000, 65_000];
+    let mut cases = 0;
+    for size in &sizes {
+        for fill in ["zeros", "ones", "honest-vote-padded"] {
+            cases += 1;
+            let payload: Vec<u8> = match fill {
+                "zeros" => vec![0u8; *size],
+                "ones" => vec![0xffu8; *size],
+                _ => honest.iter().copied().chain(std::iter::repeat(0x5a)).take(*size).collect(),
+            };
+            let replay = json!({"interface": "UdpNetwork on loopback", "datagram_bytes": size, "fill": fill});
+            let honest2 = honest.clone();
+            let r: Result<&'static str, String> = rt.block_on(async {
+                let net: UdpNetwork<ConsensusMessage, ConsensusMessage> = UdpNetwork::new_with_any_port();
+                let port = net.port();
+                let sock = std::net::UdpSocket::bind("127.0.0.1:0").map_err(|e| format!("machinery: {e}"))?;
+                let to = ("127.0.0.1", port);
+                sock.send_to(&honest2, to).map_err(|e| format!("machinery: {e}"))?;
+                if sock.send_to(&payload, to).is_err() {
+                    return Ok("datagram could not be sent");
+                }
+                sock.send_to(&honest2, to).map_err(|e| format!("machinery: {e}"))?;
+                let h = tokio::spawn(async move {
+                    let mut got = 0;
+                    while got < 2 {
+                        match net.receive().await {
+                            Ok(ConsensusMessage::Vote(_)) => got += 1,
+                            Ok(_) => {}
+                            Err(_) => break,
+                        }
+                    }
+                    got
+                });
+                match tokio::time::timeout(Duration::from_secs(5), h).await {
+                    Ok(Ok(2)) => Ok("both honest votes delivered"),
+                    Ok(Ok(n)) => Err(format!("receive() failed after {n} honest votes")),
+                    Ok(Err(j)) => Err(format!("the receiving task died: {j}")),
+                    Err(_) => Err("the interface stopped delivering: the honest vote sent after the datagram never arrived within 5 s".to_string()),
+                }
+            });
+            let _ = take_thread_panics();
+            match r {
+                Ok(_) => {}
+                Err(m) if m.starts_with("machinery") => crate::common::machinery_failure(&m),
+                Err(m) => report.violation(format!("C10:udp-interface-wedged:{}", if *size > 1500 { "oversize-datagram" } else { "datagram-within-mtu" }), format!("a {size}-byte datagram ({fill}) on a real UdpNetwork socket: {m}"), replay),
+            }
+        }
+    }
+    cases
+}
+
 pub fn run(tier: Tier) -> i32 {
     let report = Report::new("C10", tier, "fault_enumeration");
+    let udp_cases = udp_interface_sweep(&report);
+    println!("  udp interface sweep: {udp_cases} datagrams");
     let total_ms = 12_000u64;
     let mut attacks = menu(tier);
     if let Ok(f) = std::env::var("C10_ONLY") {
@@ -507,7 +626,7 @@ pub fn run(tier: Tier) -> i32 {
         attacks.retain(|a| a.name.contains(&f));
     }
     // undisturbed baseline (attacker silent)
-    let base = run_one(&[], 1_000_000, total_ms, false);
+    let base = run_one(&[], 1_000_000, total_ms, Handover::None);
     let baseline_fin = match &base {
         Ok(o) => {
             if !o.panics.is_empty() || o.victim_votes_late == 0 || o.responder_answers == 0 {
@@ -542,7 +661,7 @@ pub fn run(tier: Tier) -> i32 {
         let name = sel.iter().map(|a| a.name.clone()).collect::<Vec<_>>().join(" + ");
         let class = sel.iter().map(|a| a.class).collect::<Vec<_>>().join("+");
         evals.fetch_add(1, std::sync::atomic::Ordering::Relaxed);
-        match run_one(&sel, *phase, total_ms, false) {
+        match run_one(&sel, *phase, total_ms, Handover::None) {
             Err(p) => report.violation(format!("C10:simulation-panicked:{name}"), p, json!({"attack": name, "phase_ms": phase})),
             Ok(o) => {
                 samples.lock().unwrap().push(|| json!({"attack": name, "class": class, "phase_ms": phase, "packets": o.packets, "victim_finalized": o.finalized[VICTIM]}));
@@ -552,7 +671,7 @@ pub fn run(tier: Tier) -> i32 {
     });
     // hand-over equivocation by the attacker as previous leader (longer run)
     evals.fetch_add(1, std::sync::atomic::Ordering::Relaxed);
-    match run_one(&[], 1_000_000, 16_000, true) {
+    match run_one(&[], 1_000_000, 16_000, Handover::Equivocate) {
         Err(p) => report.violation("C10:simulation-panicked:handover-equivocation".to_string(), p, json!({"attack": "handover-equivocation"})),
         Ok(o) => {
             println!("  handover-equivocation: finalized {:?} panics {}", o.finalized, o.panics.len());
@@ -573,9 +692,10 @@ pub fn run(tier: Tier) -> i32 {
         }
     }
     let cov = json!({
-        "evaluations": evals.load(std::sync::atomic::Ordering::Relaxed),
-        "distinct_nontrivial": jobs.len() + 1,
-        "rule": "4 real Alpenglow nodes + 1 attacker validator (19% stake, own leader windows) in virtual time; each hostile item of the menu (attacker-signed votes at edge slots incl. u64::MAX and the 2-epoch boundary, slashable pairs, unknown signers, replayed and mutated certificates, validly signed malformed blocks for the attacker's own next window and for a far-future window, contradictory last flags in both orders, conflicting slices, equivocation in the last window of the slot space, slice index 1023, raw slices with odd / zero / over-long / mixed shard sizes and non-codeword coding shreds under a validly signed root, tag-flipped / corrupted genuine shreds, shreds for the victim's own window, repair requests with unknown senders and boundary indices, unsolicited / mismatched repair responses, transactions of 0/512/513/1480 bytes and floods, garbage on all five interfaces) is injected alone at each phase (thorough: also ordered pairs across classes), plus the scripted hand-over equivocation of the attacker as previous leader; afterwards no task may have panicked and the victim must still vote, answer repair requests and finalize like the undisturbed run; every (item, phase) run is distinct and non-trivial",
+        "evaluations": evals.load(std::sync::atomic::Ordering::Relaxed) + udp_cases,
+        "distinct_nontrivial": jobs.len() + 1 + udp_cases,
+        "udp_interface_datagrams": udp_cases,
+        "rule": "4 real Alpenglow nodes + 1 attacker validator (19% stake, own leader windows) in virtual time; each hostile item of the menu (attacker-signed votes at edge slots incl. u64::MAX and the 2-epoch boundary, slashable pairs, unknown signers, replayed and mutated certificates, validly signed malformed blocks for the attacker's own next window and for a far-future window, contradictory last flags in both orders, conflicting slices, equivocation in the last window of the slot space, slice index 1023, raw slices with odd / zero / over-long / mixed shard sizes and non-codeword coding shreds under a validly signed root, tag-flipped / corrupted genuine shreds, shreds for the victim's own window, repair requests with unknown senders and boundary indices, unsolicited / mismatched repair responses, transactions of 0/512/513/1480 bytes and floods, garbage on all five interfaces) is injected alone at each phase (thorough: also ordered pairs across classes), plus the scripted hand-over equivocation of the attacker as previous leader; afterwards no task may have panicked and the victim must still vote, answer repair requests and finalize like the undisturbed run; every (item, phase) run is distinct and non-trivial; in addition the real UdpNetwork receive path (recvmmsg) on the loopback device gets datagrams of 23 sizes from 0 to 65000 bytes (around the 1500-byte receive buffer in particular) x 3 fill patterns between two honest votes, both of which must still be delivered",
         "exhaustive": true,
         "menu_items": attacks.len(),
         "phases_ms": phases,
